@@ -17,6 +17,12 @@ namespace coloquinte {
 
 namespace {
 /**
+ * Upper limit for the displacement penalty, far above any useful value but
+ * small enough that penalty * coordinate stays finite in single precision
+ */
+constexpr float maxPenalty = 1.0e20f;
+
+/**
  * Mix two placements with a weight: 0 for the first, 1 for the second, or
  * in-between
  */
@@ -187,7 +193,11 @@ void GlobalPlacer::run() {
       std::cout << std::defaultfloat << std::setprecision(4) << "\tLB " << lb
                 << std::endl;
     }
+    // Keep the penalty bounded: left alone it grows exponentially at every step
+    // and, if placement does not converge, overflows the single-precision
+    // solver (infinite then NaN coordinates) long before maxNbSteps
     penalty_ *= params_.global.penalty.updateFactor;
+    penalty_ = std::min(penalty_, maxPenalty);
     penaltyCutoffDistance_ *= params_.global.penalty.cutoffDistanceUpdateFactor;
     approximationDistance_ *=
         params_.global.continuousModel.approximationDistanceUpdateFactor;
